@@ -113,6 +113,7 @@ def gen_program(r, pid, mask_rel_member=False):
     job_file = {j: r.choice(files) for j in jobs}
     free_jobs = list(jobs)
     alias_of = {}
+    bare_names = set()      # job names imported by name / star into the file being generated
     deco_trig = [False]     # at most one decorated trigger function per program (its wrapper runs before the function's own first sleep)
 
     def tag(c, what):
@@ -126,13 +127,17 @@ def gen_program(r, pid, mask_rel_member=False):
     def task_stmt(c, aliases, minjob):
         """task.create of a job nobody else starts (jobs only start jobs of higher index: no task loops)."""
         cand = [j for j in free_jobs if JOBS.index(j) >= minjob]
+        # mostly jobs whose name resolves here: defined in this file, reachable through a module object, imported by name / star
+        near = [j for j in cand if job_file[j] == c or job_file[j] in alias_of.values() or j in bare_names]
+        if near and r.random() < 0.85:
+            cand = near
         if not cand:
             return None
         j = r.choice(cand)
         free_jobs.remove(j)
         via = ""
         for a in aliases:
-            if alias_of.get(a) == job_file[j]:
+            if alias_of.get(a) == job_file[j] and (j not in bare_names or r.random() < 0.5):
                 via = a
         return {"op": "task", "f": j, "via": via}
 
@@ -199,6 +204,10 @@ def gen_program(r, pid, mask_rel_member=False):
                 body.append({"op": "setattr", "m": r.choice(aliases), "x": r.choice(DATA[:2]), "v": "%s.%s.sa%d" % (SHORT[c], fname, r.randint(1, 9))})
             elif aliases:
                 body.append({"op": "sethook", "m": r.choice(aliases), "f": r.choice(FUNCS)})
+        if entry is not None and r.random() < 0.6 and not any(t["op"] == "task" for t in body):
+            st = task_stmt(c, aliases, entry)
+            if st:                                                   # anywhere: the creator goes on (or ends) while the task runs
+                body.insert(r.randint(0, len(body) - (1 if body and body[-1]["op"] == "raise" else 0)), st)
         if wrapper and not fcalled and r.random() < 0.8 and (not body or body[-1]["op"] != "raise"):
             body.append({"op": "fcall"})
         if trigger and callee and r.random() < 0.5 and (not body or body[-1]["op"] != "raise"):
@@ -216,6 +225,7 @@ def gen_program(r, pid, mask_rel_member=False):
             names.append(x)
         aliases = []
         alias_of.clear()
+        bare_names.clear()
         bare_decos = set()       # decorator names usable as bare names here
         imps = importable(c, files)
         r.shuffle(imps)
@@ -236,8 +246,10 @@ def gen_program(r, pid, mask_rel_member=False):
                         st["names"] = sorted(r.sample(avail, r.randint(1, min(2, len(avail)))))
                         if alt == t:
                             bare_decos |= {n for n in st["names"] if n in DECOS}
+                            bare_names.update(n for n in st["names"] if n in JOBS)
                     elif alt == t:
                         bare_decos |= decos_in.get(t, set())
+                        bare_names.update(n for n in defined.get(t, []) if n in JOBS)
                     body.append(st)
         aliases = sorted(set(aliases))
         # decorators / factories defined here: def d(_fn=None): <pre>; def wd(_d, _cb): <body around _fn(_d, _cb)>; return wd | _fn
